@@ -19,8 +19,15 @@ class Graph:
     def __init__(self, tables, unions, order, root):
         self.tables, self.unions, self.order, self.root = tables, unions, order, root
 
+    STRUCT, STRING = 'St', 'Txt: string'      # non-table union members (a struct, an aliased string)
+
+    def tmembers(self, u):
+        return [m for m in self.unions[u] if m in self.tables]
+
     def schema(self):
         types = []
+        if any(self.STRUCT in ms for ms in self.unions.values()):
+            types.append({'kind': 'struct', 'name': 'St', 'fields': [{'name': 'x', 'type': 'int', 'vec': False, 'attrs': set()}]})
         for n in self.order:
             if n in self.unions:
                 types.append({'kind': 'union', 'name': n, 'members': list(self.unions[n])})
@@ -60,13 +67,13 @@ class Graph:
                 elif k == 'tv':
                     b.append('    { %s_ref_t r[2]; r[0] = mk_%s(B, depth - 1, 0); r[1] = mk_%s(B, depth - 1, 0); %s_%s_add(B, %s_vec_create(B, r, 2)); }' % (tg, tg, tg, n, f, tg))
                 elif k == 'uf':
-                    ms = self.unions[tg]
+                    ms = self.tmembers(tg)
                     b.append('    switch (depth %% %d) {' % len(ms))
                     for i, m in enumerate(ms):
                         b.append('    case %d: %s_%s_add(B, %s_as_%s(mk_%s(B, depth - 1, 0))); break;' % ((len(ms) - i) % len(ms), n, f, tg, m, m))
                     b.append('    }')
                 else:
-                    ms = self.unions[tg]
+                    ms = self.tmembers(tg)
                     b.append('    { %s_union_ref_t r[%d];' % (tg, len(ms) + 1))
                     for i, m in enumerate(ms):
                         b.append('      r[%d] = %s_as_%s(mk_%s(B, depth - 1, 0));' % (i, tg, m, m))
@@ -85,13 +92,13 @@ class Graph:
                     d.append('  { %s_vec_t v = %s_%s(t); for (i = 0; i < %s_vec_len(v); ++i) { snprintf(p, sizeof p, "%%s.%s[%%d]", path, (int)i); dump_%s(%s_vec_at(v, i), p); } }' % (tg, n, f, tg, f, tg, tg))
                 elif k == 'uf':
                     d.append('  snprintf(p, sizeof p, "%%s.%s", path); switch (%s_%s_type(t)) {' % (f, n, f))
-                    for m in self.unions[tg]:
+                    for m in self.tmembers(tg):
                         d.append('    case %s_%s: dump_%s((%s_table_t)%s_%s(t), p); break;' % (tg, m, m, m, n, f))
                     d.append('    default: break; }')
                 else:
                     d.append('  { %s_union_vec_t uv = %s_%s_union(t); for (i = 0; i < %s_union_vec_len(uv); ++i) { %s_union_t u = %s_union_vec_at(uv, i);' % (tg, n, f, tg, tg, tg))
                     d.append('      snprintf(p, sizeof p, "%%s.%s[%%d]", path, (int)i); switch (u.type) {' % f)
-                    for m in self.unions[tg]:
+                    for m in self.tmembers(tg):
                         d.append('      case %s_%s: dump_%s((%s_table_t)u.value, p); break;' % (tg, m, m, m))
                     d.append('      default: break; } } }')
             d.append('}')
@@ -118,13 +125,13 @@ EDGE_KINDS = ('tf', 'tv', 'uf', 'uv')
 def edges_graph(rng):
     """sorted vectors reachable ONLY through one kind of edge, and every chain of two kinds below the root."""
     tables = {'Leaf': {'sv': True, 'uv': True, 'edges': []}, 'Plain': {'sv': False, 'uv': True, 'edges': []}}
-    unions = {'UL': ['Leaf', 'Plain']}
+    unions = {'UL': [Graph.STRUCT, 'Leaf', Graph.STRING, 'Plain']}
     root_edges = []
     def edge(kind, table, union):
         return {'tf': ('e', 'tf', table), 'tv': ('e', 'tv', table), 'uf': ('e', 'uf', union), 'uv': ('e', 'uv', union)}[kind]
     for y in EDGE_KINDS:
         tables['N_' + y] = {'sv': False, 'uv': rng.random() < 0.5, 'edges': [edge(y, 'Leaf', 'UL')]}
-        unions['UN_' + y] = ['N_' + y, 'Plain']
+        unions['UN_' + y] = rng.choice([[Graph.STRING, Graph.STRUCT, 'N_' + y, 'Plain'], ['Plain', Graph.STRUCT, 'N_' + y], [Graph.STRUCT, 'N_' + y, 'Plain'], ['N_' + y, Graph.STRUCT, 'Plain']])
         for x in EDGE_KINDS:
             tables['M_%s_%s' % (x, y)] = {'sv': False, 'uv': rng.random() < 0.5, 'edges': [edge(x, 'N_' + y, 'UN_' + y)]}
             root_edges.append(('m_%s_%s' % (x, y), 'tf', 'M_%s_%s' % (x, y)))
@@ -142,7 +149,7 @@ def cycle_graph(rng):
               'Cyc3': {'sv': False, 'uv': True, 'edges': [('back', 'tv', 'Cyc2'), ('leaf', 'uf', 'UL')]},
               'Self': {'sv': False, 'uv': False, 'edges': [('me', 'uv', 'US'), ('l', 'tv', 'Leaf')]},
               'Root': {'sv': False, 'uv': True, 'edges': [('c', 'tf', 'Cyc'), ('d', 'tv', 'Cyc2'), ('s', 'uf', 'US')]}}
-    unions = {'UC': ['Cyc', 'Leaf'], 'UL': ['Leaf'], 'US': ['Self']}
+    unions = {'UC': [Graph.STRUCT, 'Cyc', Graph.STRING, 'Leaf'], 'UL': [Graph.STRING, Graph.STRUCT, 'Leaf'], 'US': ['Self']}
     order = list(tables) + list(unions)
     rng.shuffle(order)
     return Graph(tables, unions, order, 'Root'), 4
@@ -153,6 +160,10 @@ def random_graph(rng):
     names = ['T%d' % i for i in range(nt)]
     nu = rng.randint(1, 3)
     unions = {'U%d' % i: rng.sample(names[1:], rng.randint(1, min(3, nt - 1))) for i in range(nu)}
+    for u in unions:
+        # struct / string members before and between the table members
+        for extra in (Graph.STRUCT, Graph.STRING):
+            if rng.random() < 0.6: unions[u].insert(rng.randint(0, len(unions[u]) - 1), extra)
     tables = {}
     for i, n in enumerate(names):
         edges = []
